@@ -26,10 +26,10 @@ def _work(task):
                          "flat": r["flat"], "skeleton": r["skeleton"], "skexc": r["skexc"], "H": r["H"], "root": r["root"]})
             continue
         r = srcpipe.pipeline(src)
-        recs.append({"outcome": r["outcome"], "stage": r["stage"], "exc": r["exc"], "census": r["census"] or {}, "src": src, "feats": feats,
+        recs.append({"outcome": r["outcome"], "stage": r["stage"], "exc": r["exc"], "census": r["census"] or {}, "src": src, "feats": feats, "second": r.get("second"),
                      "flat": r.get("flat", {}), "skeleton": r.get("skeleton", []), "skexc": r.get("skeleton_exc", ""), "H": r.get("H", {}), "root": r.get("root", "")})
     with open(path, "w") as f:
-        json.dump([{k: r[k] for k in ("outcome", "stage", "census")} for r in recs], f, separators=(",", ":"))
+        json.dump([{k: r[k] for k in ("outcome", "stage", "census", "second") if r.get(k) is not None} for r in recs], f, separators=(",", ":"))
     sk = [{"flat": r["flat"], "code": r["skeleton"]} for r in recs if r["outcome"] == "ok" and not r["skexc"]]
     with open(path.replace("census-", "skeleton-"), "w") as f:
         json.dump(sk, f, separators=(",", ":"))
@@ -77,8 +77,10 @@ def main(argv):
                 st = tlc.parse_state(v["states"][0])
                 m = meta[st["tid"] - 1]
                 for clause in st["bad"]:
+                    if clause.startswith("Again/") and clause[6:] in st["bad"]:
+                        continue        # the second regeneration repeats what the first one already shows
                     rep.violation(clause, {"src": m["src"], "feats": m["feats"]}, detail={"exc": m["exc"], "stage": m["stage"]},
-                                  signature={"clause": clause.split("/")[0], "exc": m["exc"], "outside": m["outside"]})
+                                  signature={"clause": clause.replace("Again/", "").split("/")[0], "exc": m["exc"], "outside": m["outside"]})
         # all decision paths, skeleton level (Skeleton.tla): product of the flat graph with the generated code
         skres = tlc.run_shards("Skeleton", "INIT Init\nNEXT Next\nINVARIANT SamePaths\nALIAS Small\nCHECK_DEADLOCK FALSE\n",
                                [{"CASES": t[1].replace("census-", "skeleton-"), "MODE": "real"} for t in tasks], jobs=args.jobs, workers=1, timeout=3000)
@@ -113,7 +115,9 @@ def main(argv):
             okm = [m for m in meta if m["outcome"] == "ok" and not m["skexc"]]
             for m in meta:
                 if m["outcome"] == "ok" and m["skexc"]:
-                    raise tlc.MachineryError("skeleton extraction does not recognise the generated code: %s\n%s" % (m["skexc"], m["src"]))
+                    # generated code of a shape the skeleton grammar does not know: no all-paths product for this program (the census
+                    # below is by node identity and does not depend on it); reported, never a verdict and never a reason to stop
+                    rep.add_drift({"generated_code_shape_unknown_to_Skeleton": m["skexc"], "src": m["src"]})
             for v in tr.violations:
                 st = tlc.parse_state(v["states"][-1])
                 m = okm[st["tid"] - 1]
